@@ -258,6 +258,77 @@ def run(ctx):
                    analysis="LOCK typestate + CFG path query")
     ctx.floor("C18.ATOMIC", n_at, 3, "instance-map stores in factory __call__")
 
+    # ---- C18.KEYINJ: the cache key is the constructor arguments themselves ------------------
+    # "one object per key" is only as good as the key: a key component that passed through a lossy conversion
+    # (int(), round(), lower(), //) makes two different argument lists share one instance.  Accepted components:
+    # a parameter, `<parameter>.total_seconds()` (exact for a timedelta), a constant, a conditional of those.
+    from ..cfg import ReachingDefs
+    n_key = 0
+    for c in owners:
+        f = c.methods["__call__"]
+        cfg = ctx.cfg(f)
+        rd = ReachingDefs(cfg, params=f.params)
+        prot = derive_protected(prog, c)
+        params = set(f.params)
+
+        def comp_ok(e, at, depth=0):
+            if isinstance(e, ast.Constant):
+                return True
+            if isinstance(e, ast.Name):
+                ds = rd.at(at, e.id)
+                if ds == frozenset([0]) and e.id in params:
+                    return True
+                if depth < 3 and ds and all(i and isinstance(cfg.nodes[i].ast, ast.Assign) and len(cfg.nodes[i].ast.targets) == 1
+                                            and isinstance(cfg.nodes[i].ast.targets[0], ast.Name) for i in ds):
+                    return all(comp_ok(cfg.nodes[i].ast.value, cfg.nodes[i], depth + 1) for i in ds)
+                return False
+            if isinstance(e, ast.Tuple):
+                return all(comp_ok(x, at, depth) for x in e.elts)
+            if isinstance(e, ast.IfExp):
+                return comp_ok(e.body, at, depth) and comp_ok(e.orelse, at, depth)
+            if isinstance(e, ast.Call) and isinstance(e.func, ast.Attribute) and e.func.attr == "total_seconds" and not e.args:
+                return comp_ok(e.func.value, at, depth)
+            return False
+        mentioned = set()
+        for n in cfg.live_nodes():
+            if n.ast is None or n.kind not in ("stmt", "branch"):
+                continue
+            for x in ast.walk(n.ast):
+                k = None
+                if isinstance(x, ast.Call) and isinstance(x.func, ast.Attribute) and x.func.attr in ("get", "setdefault", "pop") \
+                        and isinstance(x.func.value, ast.Attribute) and mangle(c.name, x.func.value.attr) in prot and x.args:
+                    k = x.args[0]
+                elif isinstance(x, ast.Subscript) and isinstance(x.value, ast.Attribute) and mangle(c.name, x.value.attr) in prot:
+                    k = x.slice
+                if k is None:
+                    continue
+                n_key += 1
+                ok = comp_ok(k, n)
+                # which parameters the key is built from
+                stack, seen = [(k, n)], set()
+                while stack:
+                    e, at = stack.pop()
+                    for y in ast.walk(e):
+                        if isinstance(y, ast.Name):
+                            ds = rd.at(at, y.id)
+                            if 0 in ds and y.id in params:
+                                mentioned.add(y.id)
+                            for i in ds:
+                                if i and i not in seen and isinstance(cfg.nodes[i].ast, ast.Assign):
+                                    seen.add(i)
+                                    stack.append((cfg.nodes[i].ast.value, cfg.nodes[i]))
+                ctx.ob("C18.KEYINJ", f, "the key under which an instance is looked up / stored consists of the call's own arguments "
+                       "(or timedelta.total_seconds() of one): no lossy conversion lets two different argument lists share an instance",
+                       ok, construct="key of %s" % src(x)[:80],
+                       detail="" if ok else "key `%s` has a component that is not a parameter, <parameter>.total_seconds() or a constant: %s" % (
+                           src(k), "; ".join(rd.describe(rd.at(n, k.id))) if isinstance(k, ast.Name) else src(k)),
+                       analysis="reaching definitions of the key expression")
+        want = params - {"cls", "self"}
+        ctx.ob("C18.KEYINJ", f, "every argument of the factory call takes part in the key (an argument left out makes calls that differ in it share an instance)",
+               want <= mentioned, construct="parameters in the key of %s.__call__" % c.name,
+               detail="" if want <= mentioned else "not in the key: %s" % sorted(want - mentioned), analysis="reaching definitions of the key expression")
+    ctx.floor("C18.KEYINJ", n_key, 8, "key expressions at instance-map / strong-cache accesses")
+
     # ---- C18.WEAKONLY: only the strong (LRU) cache evicts; the weak instance map is never pruned by hand ----
     for c in owners:
         prot = derive_protected(prog, c)
